@@ -17,7 +17,13 @@ VD2 == ClampedDirs({1, 2}, <<Half>>, 1)
 VolSet == IF VolMode = 0 THEN {} ELSE
   {s \in Volumes(VD2, VD2, IF VolMode = 1 THEN VD1 ELSE VD2, BOOLEAN, Seed) :
       DiffSizes(s) /\ (VolMode > 1 \/ (s.deg[1] = 1 /\ s.deg[2] = 2) \/ (s.deg[1] = 2 /\ s.deg[2] = 1 /\ ~s.rat))}
-MCShapes == CurveSet \cup SurfSet \cup VolSet
+\* volumes with one cubic direction (removal of 2..3 copies in one call exercises several passes of A5.8 on rows of points)
+C3 == <<3, MkClamped(3, <<Half>>, <<0>>)>>
+L2 == <<1, MkClamped(1, <<Half>>, <<0>>)>>
+L3 == <<1, MkClamped(1, <<Half>>, <<1>>)>>
+VolCubic == IF VolMode = 0 THEN {} ELSE
+  Volumes({C3}, {L2}, {L3}, {FALSE}, Seed) \cup Volumes({L3}, {C3}, {L2}, {TRUE}, Seed) \cup Volumes({L2}, {L3}, {C3}, {FALSE}, Seed)
+MCShapes == CurveSet \cup SurfSet \cup VolSet \cup VolCubic
 
 \* single-direction admissible insertions
 SingleIns(s) == {a \in InsArgs(s, FALSE) :
@@ -26,15 +32,25 @@ SingleIns(s) == {a \in InsArgs(s, FALSE) :
 OneDirDens(s) == {dens \in [1..PDim(s) -> 0..1] : SumInts(dens) = 1}
 RemArgs(s) == UNION {{<<d, u, r>> : u \in {x \in Breaks(s.kv[d]) : RLt(DomLo(s.deg[d], s.kv[d]), x) /\ RLt(x, DomHi(s.deg[d], s.kv[d]))},
                                     r \in 1..s.deg[d]} : d \in 1..PDim(s)}
+\* multi-direction admissible insertions (every selected direction at its smallest interior parameter)
+MultiIns(s) == {a \in InsArgs(s, FALSE) :
+   /\ Cardinality({d \in 1..PDim(s) : a[1][d] # None}) > 1
+   /\ \A d \in 1..PDim(s) : a[1][d] # None => a[2][d] <= s.deg[d] - Mult(a[1][d], s.kv[d])}
 Next == \/ /\ hist = <<>>
            /\ \/ \E a \in SingleIns(obj) : AInsert(a[1], a[2])
+              \/ \E a \in MultiIns(obj) : AInsert(a[1], a[2])
               \/ \E dens \in OneDirDens(obj) : ARefine(dens)
         \/ /\ hist # <<>> /\ Len(hist) <= MaxRemDepth
-           /\ \E x \in RemArgs(obj) : ARemove(x[1], x[2], x[3])
+           /\ \/ \E x \in RemArgs(obj) : ARemove(x[1], x[2], x[3])
+              \* undo a multi-direction insertion in one multi-direction removal call
+              \/ /\ Len(hist) = 1 /\ hist[1].a = "insert"
+                 /\ Cardinality({d \in 1..PDim(obj) : hist[1].prm[d] # None}) > 1
+                 /\ ARemoveMulti(hist[1].prm, hist[1].num)
 Spec == Init /\ [][Next]_vars
 
 LastStep == hist'[Len(hist')]
 IsRemove == LastStep.a = "remove"
+P_RemoveMulti == [][LastStep.a = "remove_multi" => SameH(obj', obj) /\ obj' = sh0]_vars
 \* removal leaves every evaluated point unchanged; knot vector and net shrink by exactly r in that direction only
 P_RemoveExact == [][IsRemove =>
    LET st == LastStep IN
@@ -48,10 +64,11 @@ P_BookTest == [][IsRemove => LET st == LastStep IN RowsRemovable(obj, st.d, st.u
 \* insert r times then remove r times restores the original control points
 InvertsInsert ==
   (Len(hist) = 2 /\ hist[1].a = "insert" /\ hist[2].a = "remove"
+     /\ Cardinality({d \in 1..PDim(obj) : hist[1].prm[d] # None}) = 1
      /\ hist[1].prm[hist[2].d] = hist[2].u /\ hist[1].num[hist[2].d] = hist[2].r) => obj = sh0
 \* a knot inserted r times is removable r' <= r times (ARemove is enabled)
 InsertedIsRemovable ==
-  (Len(hist) = 1 /\ hist[1].a = "insert") =>
+  (Len(hist) = 1 /\ hist[1].a = "insert" /\ Cardinality({d \in 1..PDim(obj) : hist[1].prm[d] # None}) = 1) =>
      LET d == CHOOSE e \in 1..PDim(obj) : hist[1].prm[e] # None IN
      \A r \in 1..hist[1].num[d] : Removable(obj, d, hist[1].prm[d], r)
 T_WellFormed == WellFormed(obj)
